@@ -47,13 +47,24 @@ def gen_cases(rng, tier):
 			# tunnel mode (RFC 7231 4.3.6); every other response (407 with a body ...) is an ordinary message
 			kind = 'client-connect'
 		cases.append({'k': 'wf', 'kind': kind, 'gt': gts, 'sers': [x.hex() for x in sers], 'trunc': [t for t in trunc if 0 < t < total]})
+	# boundary arithmetic: payloads of 2^k and 2^k +- 1 octets (k = 9..14; thorough: ..16), chunks of exactly 2^j octets, cut at the block boundaries
+	# inside the body and around the message ends (no per-octet run for these: 'big')
+	lens = [512, 1023, 1024, 4095, 4096, 4097, 8191, 8192, 8193, 16384, 12288] + ([32768, 65535, 65536, 65537, 24576] if tier == 'thorough' else [])
+	for n, L in enumerate(lens * (2 if tier == 'thorough' else 1)):
+		kind = ('server', 'client')[n % 2]
+		gts, sers = streams.gen_wf(rng, kind, n=2, paylen=L, chunk_sizes=[rng.choice([512, 1024, 4096, 8192])])
+		total = len(sers[0]) + len(sers[1])
+		e0 = len(sers[0])
+		head0 = e0 - len(bytes.fromhex(gts[0]['body'])) if not gts[0]['chunked'] else sers[0].index(b'\r\n\r\n') + 4
+		trunc = sorted(set([e0 - 1, e0, e0 + 1] + [head0 + b for b in (512, 4096, 8192, L - 1, L) if b <= L] + [rng.randrange(1, total)]))
+		cases.append({'k': 'wf', 'big': True, 'kind': kind, 'gt': gts, 'sers': [x.hex() for x in sers], 'trunc': [t for t in trunc if 0 < t < total]})
 	return cases
 
 
 def observe(c):
 	sers = [bytes.fromhex(x) for x in c['sers']]
 	s = b''.join(sers)
-	cuts = [[], list(range(1, len(s)))] + [[t] for t in c['trunc']]
+	cuts = [[]] + ([c['trunc']] if c.get('big') else [list(range(1, len(s)))]) + [[t] for t in c['trunc']]
 	o = pc.observe_stream(c['kind'], s, cuts)
 	o['alone'] = [parser_rec.run(c['kind'], [x], record=False) for x in sers]
 	return o
